@@ -611,11 +611,11 @@ theorem map_atomize_false : ∀ ops : List Op, ops.map (atomize false) = ops
   | op :: ops => by cases op <;> simp [atomize, map_atomize_false ops]
 
 /-- the statement of wave 1 is the instance `replayIsComplete, ¬ atomicWrite` -/
-theorem C20_full_of_cfg (d : Dyn σ ρ) (hc : C20_full_cfg ⟨true, false, true, true, true⟩ d) : C20_full d := by
+theorem C20_full_of_cfg (d : Dyn σ ρ) (hc : C20_full_cfg ⟨true, false, true, true, true, true⟩ d) : C20_full d := by
   intro ops
   have := hc ops
-  simp only [runCC_good ⟨true, false, true, true, true⟩ rfl, finalCC_good ⟨true, false, true, true, true⟩ rfl, stepCC_good ⟨true, false, true, true, true⟩ rfl,
-    effC_good ⟨true, false, true, true, true⟩ rfl] at this
+  simp only [runCC_good ⟨true, false, true, true, true, true⟩ rfl, finalCC_good ⟨true, false, true, true, true, true⟩ rfl, stepCC_good ⟨true, false, true, true, true, true⟩ rfl,
+    effC_good ⟨true, false, true, true, true, true⟩ rfl] at this
   simp only [map_atomize_false, atomize] at this
   exact ⟨this.1, this.2.1, this.2.2.1⟩
 
@@ -632,18 +632,18 @@ are not replayed, the constant given after the restart is applied to them as wel
 theorem C20_witness_partial_replay (c : Cfg) (h : c.replayIsComplete = false) : ¬ C20_full_cfg c lazyDyn := by
   intro hf
   have h4 := (hf lateOps).1 4
-  obtain ⟨r, a, l, o, m⟩ := c
+  obtain ⟨r, a, l, o, m, j⟩ := c
   simp only at h
   subst h
-  cases a <;> cases l <;> cases o <;> cases m <;> exact absurd h4 (by decide)
+  cases a <;> cases l <;> cases o <;> cases m <;> cases j <;> exact absurd h4 (by decide)
 
 /-- what the complete replay answers, and what the incomplete one answers -/
-example : (runCC ⟨true, false, true, true, true⟩ lazyDyn Server.empty lateOps)[4]? = some (.ok [(1024, "1"), (2048, "1"), (3072, "5")]) := by decide
+example : (runCC ⟨true, false, true, true, true, true⟩ lazyDyn Server.empty lateOps)[4]? = some (.ok [(1024, "1"), (2048, "1"), (3072, "5")]) := by decide
 example : (runU lazyDyn UServer.empty lateOps)[4]? = some (.ok [(1024, "1"), (2048, "1"), (3072, "5")]) := by decide
-example : (runCC ⟨false, false, true, true, true⟩ lazyDyn Server.empty lateOps)[4]? = some (.ok [(1024, "5"), (2048, "5"), (3072, "5")]) := by decide
+example : (runCC ⟨false, false, true, true, true, true⟩ lazyDyn Server.empty lateOps)[4]? = some (.ok [(1024, "5"), (2048, "5"), (3072, "5")]) := by decide
 /-- … and why such a defect passes every history WITHOUT settings after the restart: on-demand computation
 gives the same values then -/
-example : runCC ⟨false, false, true, true, true⟩ lazyDyn Server.empty quietOps = runU lazyDyn UServer.empty quietOps := by decide
+example : runCC ⟨false, false, true, true, true, true⟩ lazyDyn Server.empty quietOps = runU lazyDyn UServer.empty quietOps := by decide
 
 /-! ### the order of the restored log (wave 4) -/
 
@@ -660,12 +660,12 @@ session replays step 10 before step 9, so the constant set in step 9 is not in f
 theorem C20_witness_sorted_keys (c : Cfg) (h : c.replayOrderPreserved = false) : ¬ C20_full_cfg c lazyDyn := by
   intro hf
   have h4 := (hf digitOps).1 4
-  obtain ⟨r, a, l, o, m⟩ := c
+  obtain ⟨r, a, l, o, m, j⟩ := c
   simp only at h
   subst h
-  cases r <;> cases a <;> cases l <;> cases m <;> exact absurd h4 (by decide)
+  cases r <;> cases a <;> cases l <;> cases m <;> cases j <;> exact absurd h4 (by decide)
 
-example : (runCC ⟨true, false, true, false, true⟩ lazyDyn Server.empty digitOps)[4]? = some (.ok [(9, "1"), (10, "1"), (11, "5")]) := by decide
+example : (runCC ⟨true, false, true, false, true, true⟩ lazyDyn Server.empty digitOps)[4]? = some (.ok [(9, "1"), (10, "1"), (11, "5")]) := by decide
 example : (runU lazyDyn UServer.empty digitOps)[4]? = some (.ok [(9, "5"), (10, "5"), (11, "5")]) := by decide
 
 /-! ### the temporary file read first (wave 6) -/
@@ -680,22 +680,22 @@ theorem C20_witness_temp_first (c : Cfg) (h : c.loadReadsCommitted = false) (ha 
     ¬ C20_full_cfg c histDyn := by
   intro hf
   have h6 := (hf []).2.2.2.2.2 (tmpOps .prefix)
-  obtain ⟨r, a, l, o, m⟩ := c
+  obtain ⟨r, a, l, o, m, j⟩ := c
   simp only at h ha
   subst h; subst ha
-  cases r <;> cases l <;> cases o <;> exact absurd h6 (by decide)
+  cases r <;> cases l <;> cases o <;> cases j <;> exact absurd h6 (by decide)
 
 /-- the committed file is read (clean tree): every cut, the complete-but-not-renamed one included, loses the request
 as a whole and nothing else; "temp first": a torn prefix loses the instance, a complete temporary file makes the
 restored instance one step ahead of what was ever answered -/
-example : ∀ cut, runCT ⟨true, true, true, true, true⟩ histDyn (Server.empty, noTmps) (tmpOps cut)
+example : ∀ cut, runCT ⟨true, true, true, true, true, true⟩ histDyn (Server.empty, noTmps) (tmpOps cut)
     = [.none, .ok [(1024, [(0, "c=5")])], .none, .ok [(1024, [(0, "c=5")]), (2048, [])]] := by
   intro cut; cases cut <;> decide
-example : runCT ⟨true, true, true, true, false⟩ histDyn (Server.empty, noTmps) (tmpOps .prefix)
+example : runCT ⟨true, true, true, true, false, true⟩ histDyn (Server.empty, noTmps) (tmpOps .prefix)
     = [.none, .ok [(1024, [(0, "c=5")])], .none, .invalid] := by decide
-example : runCT ⟨true, true, true, true, false⟩ histDyn (Server.empty, noTmps) (tmpOps .all)
+example : runCT ⟨true, true, true, true, false, true⟩ histDyn (Server.empty, noTmps) (tmpOps .all)
     = [.none, .ok [(1024, [(0, "c=5")])], .none, .ok [(1024, [(0, "c=5")]), (2048, []), (3072, [])]] := by decide
-example : runCT ⟨true, true, true, true, false⟩ histDyn (Server.empty, noTmps) (tmpOps .nothing)
+example : runCT ⟨true, true, true, true, false, true⟩ histDyn (Server.empty, noTmps) (tmpOps .nothing)
     = [.none, .ok [(1024, [(0, "c=5")])], .none, .ok [(1024, [(0, "c=5")]), (2048, [])]] := by decide
 
 /-! ### the skipping load (wave 3) -/
@@ -717,6 +717,41 @@ example : startup true (loopSkip 2 0 (listing [some demoPersist, none])) = some 
 example : startup false (loopSkip 3 0 (listing [none, none, some demoPersist])) = none := by decide
 example : startup false (loopSkip 2 0 (listing [none, some demoPersist])) = some [demoPersist] := by decide
 
+/-! ### state files that parse but hold no session state (wave 7) -/
+
+/-- start-up never fails on a state file, whatever it holds: the sessions are reconstructed, everything else is skipped -/
+def NoStartupFailureOnJunk (c : Cfg) : Prop :=
+  ∀ (compress : Bool) (l : List Stored), startup compress (loadEntriesS c (listingS l)) = some (sessionsOf l)
+
+theorem startup_skips_junk (compress : Bool) : ∀ l : List Stored,
+    startup compress (((listingS l).filterMap perEntry).filter (· != .junk)) = some (sessionsOf l)
+  | [] => rfl
+  | .unreadable :: r => by
+    have := startup_skips_junk compress r
+    simp only [listingS, List.filterMap_cons, perEntry, sessionsOf]; exact this
+  | .notASession :: r => by
+    have := startup_skips_junk compress r
+    simp only [listingS, List.filterMap_cons, perEntry, sessionsOf, List.filter_cons]
+    simpa using this
+  | .session p :: r => by
+    have := startup_skips_junk compress r
+    simp only [listingS, List.filterMap_cons, perEntry, sessionsOf, List.filter_cons]
+    simp [startup, this]
+
+theorem noStartupFailure_of_skip (c : Cfg) (hl : c.loadIsPerEntry = true) (hj : c.loadSkipsUnusable = true) :
+    NoStartupFailureOnJunk c := by
+  intro compress l
+  simp only [loadEntriesS, hj, if_true, loadEntries, hl]
+  exact startup_skips_junk compress l
+
+/-- without that, ONE state file whose inner state is not a session keeps the server from starting (either mode) -/
+theorem noStartupFailure_witness (c : Cfg) (hl : c.loadIsPerEntry = true) (hj : c.loadSkipsUnusable = false) :
+    ¬ NoStartupFailureOnJunk c := by
+  intro hf
+  have := hf false [.notASession, .session demoPersist]
+  simp only [loadEntriesS, hj, loadEntries, hl] at this
+  exact absurd this (by decide)
+
 /-! ### the atomic write -/
 
 /-- no externalised instance is lost by a crash inside a state write -/
@@ -732,15 +767,15 @@ theorem noLoss_of_atomic (c : Cfg) (h : c.good = true) (ha : c.atomicWrite = tru
 theorem noLoss_witness (c : Cfg) (ha : c.atomicWrite = false) : ¬ NoLossInWrite c histDyn := by
   intro hf
   have := hf [.start 1 lateSpec, .step 1 []] 1 [] 1 { spec := lateSpec, step := 2048, log := [(1024, [])] }
-  obtain ⟨r, a, l, o, m⟩ := c
+  obtain ⟨r, a, l, o, m, j⟩ := c
   simp only at ha
   subst ha
-  cases r <;> cases l <;> cases o <;> cases m <;> exact absurd (this (by decide)) (by decide)
+  cases r <;> cases l <;> cases o <;> cases m <;> cases j <;> exact absurd (this (by decide)) (by decide)
 
 /-- the torn request is retried after the restart and answered as the uninterrupted session answers it -/
-example : runCC ⟨true, true, true, true, true⟩ histDyn Server.empty [.start 1 lateSpec, .step 1 [(0, "c=5")], .crashInWrite 1 [], .step 1 []]
+example : runCC ⟨true, true, true, true, true, true⟩ histDyn Server.empty [.start 1 lateSpec, .step 1 [(0, "c=5")], .crashInWrite 1 [], .step 1 []]
     = [.none, .ok [(1024, [(0, "c=5")])], .none, .ok [(1024, [(0, "c=5")]), (2048, [])]] := by decide
-example : runCC ⟨true, false, true, true, true⟩ histDyn Server.empty [.start 1 lateSpec, .step 1 [(0, "c=5")], .crashInWrite 1 [], .step 1 []]
+example : runCC ⟨true, false, true, true, true, true⟩ histDyn Server.empty [.start 1 lateSpec, .step 1 [(0, "c=5")], .crashInWrite 1 [], .step 1 []]
     = [.none, .ok [(1024, [(0, "c=5")])], .none, .invalid] := by decide
 
 #print axioms C20_full_holds
@@ -753,6 +788,8 @@ example : runCC ⟨true, false, true, true, true⟩ histDyn Server.empty [.start
 #print axioms C20_witness_skipping_load
 #print axioms C20_witness_sorted_keys
 #print axioms C20_witness_temp_first
+#print axioms noStartupFailure_of_skip
+#print axioms noStartupFailure_witness
 #print axioms runCT_good
 #print axioms startup_perEntry
 #print axioms C20_continuation
